@@ -295,6 +295,16 @@ def _check_quilt(case, tmp):
         if got.cls in ('NotImplementedAxis', 'AxisInvalid') or isinstance(got.exc, NotImplementedError):
             raise Discard('documented refusal: %s' % got.cls)
         raise Failure('raised:%s' % got.cls, 'Quilt %s raised %r; the concatenated Frame gives %s' % (_describe(case), got.exc, short(_snap_any(want), 300)), got.where)
+    if len(frames) >= 2 and w >= 2 and not case['backed']:
+        # members whose labels on the other axis are the same set in another order are not aligned: a Quilt over them is refused
+        # (it would stack their values by position under the first member's labels)
+        f1 = frames[1]
+        perm = f1.iloc[:, ::-1] if axis == 0 else f1.iloc[::-1]
+        bad = lib(lambda: sf.Quilt(sf.Bus.from_frames([frames[0], perm] + list(frames[2:])), axis=axis, retain_labels=case['retain']).values)
+        if not isinstance(bad, Raised):
+            raise Failure('no-raise', 'a Quilt (axis=%d) over members whose opposite-axis labels are permuted was accepted: values %s' % (axis, short(bad.tolist(), 200)))
+        if bad.cls != 'ErrorInitQuilt':
+            raise Failure('raised:%s' % bad.cls, 'a Quilt over members with permuted opposite-axis labels raised %r, not the Quilt initialisation error' % bad.exc, bad.where)
     a, b = _snap_any(want), _snap_any(got)
     if not _same_snap(a, b):
         b = _snap_any(_cast_like(got, want))
